@@ -68,5 +68,13 @@ Definition map_transcript (t : ity) (lay : nat) (pv : option Z) (pat : list (opt
       TL (if has_strides_member lay then strides_impl t m else Ok []);
       TB (bind (is_exhaustive_impl t m) (fun e =>
             Ok [is_unique_impl m; e; is_strided_impl m; true; is_always_exhaustive_model lay pv pat; true]));
+      TB (bind (is_exhaustive_impl t m) (fun e =>
+            Ok [is_unique_impl m; e; is_strided_impl m; true; is_always_exhaustive_model lay pv pat; true]));
+      TZ (Ok (size_impl t (exts m)));
+      TB (Ok [empty_impl (exts m)]);
+      TL (Ok (exts m));
+      TL (seq_res (map (stride_impl t m) (seq 0 R)));
+      TL (Ok [Z.of_nat R; Z.of_nat (length (filter (fun p => match p with None => true | Some _ => false end) pat))]);
+      TL (Ok (map (fun p => match p with None => -1 | Some v => v end) pat));
       TL (seq_res (map (offset_impl t m) pts)) ]
   end.
